@@ -141,6 +141,7 @@ def run(P: Program, rep: Report):
                        "kinds with no failed block, each key / field key / value / comment slice containing exactly its hole; "
                        "every value is one brace-enclosed field")
     n = 0
+    deferred = []
     for si, shape in enumerate(SHAPES):
         for fi_, fmtopts in enumerate(FORMATS):
             cfg = f"shape{si}:format{fi_}"
@@ -158,7 +159,14 @@ def run(P: Program, rep: Report):
                     return ("raise", r, descr)
                 except (Unsupported, LoopBound) as u:
                     raise AnalysisError(f"C05.R1: analyser cannot follow write_string: {u}")
-            for ctx, (kind, out, descr) in explore(one, 4000):
+            try:
+                paths = explore(one, 4000)
+            except AnalysisError as e_:
+                # symbolic values took the analysis somewhere it cannot follow (e.g. a character loop over an unknown text): the rules
+                # over concrete class strings below still decide; the error is re-raised at the end if they find nothing
+                deferred.append(e_)
+                continue
+            for ctx, (kind, out, descr) in paths:
                 n += 1
                 if kind == "raise":
                     rep.fail("C05.R1", f"write-raises:{cfg}", common.raise_site(P, out) or ws.loc, f"write_string raises {out.cls_name()} ({cfg})")
@@ -251,7 +259,8 @@ def run(P: Program, rep: Report):
                                 problem = f"@comment {bi} re-reads as {tv!r}"
                 rep.check(problem is None, "C05.R1", f"skeleton:{cfg}", ws.loc, f"{problem} ({cfg}); written text: {text[:300]!r}")
     rep.count("written_documents", n)
-    rep.require_count("C05.R1", "written documents", n, 10)
+    if not deferred:
+        rep.require_count("C05.R1", "written documents", n, 10)
 
     rep.rule("C05.R2", "default stacks pair up: parse = [ResolveStringReferences, RemoveEnclosing], write = [AddEnclosing('{', no "
                        "reuse, enclose integers)]; the enclosing tags RemoveEnclosing records are exactly those AddEnclosing "
@@ -332,6 +341,12 @@ def run(P: Program, rep: Report):
     rep.rule("C05.R6", "the round trip re-reads what the writer emitted: the reader must implement the dialect grammar (splitter product, content class, see C02.R2)")
     from .. import splitter_facts as _sf
     _sf.report_product(rep, P, "C05.R6", ["content"], "parsed content", after_abort=False)
+
+    from . import common as _cm
+    _cm.default_stacks_are_fresh(P, rep, "C05.R2")
+
+    if deferred:
+        raise deferred[0]
 
     rep.rule("C05.R9", "no unsafe memoisation in the modules this property rests on: a function decorated with lru_cache / cache / "
                       "cached_property neither takes nor returns a mutable object (else later calls see stale or shared results)")
